@@ -116,3 +116,9 @@ package multiplex
 //@   ensures [unlocked] !held(m.connLock) && rheld(m.connLock) == 0
 //@   ensures [failstop] done(m.closeOnce)
 //@   loop 1 invariant wfMux(m) && !held(m.connLock) && rheld(m.connLock) == 0
+
+// creating a multiplexer starts its goroutines; for the callers only this matters:
+//@ func Multiplex
+//@   props C16 C10
+//@   trusted
+//@   ensures result != nil
